@@ -753,6 +753,47 @@ def codec_cases(ctx, rng, n, live):
     ctx.coq_check_cases(imp, "pystr * fields * fields * res fields", "(chk_load_obj impexp_tables)", lcases, shard=40, label="loadobj")
 
 
+def grant_cases(ctx, grants):
+    """whole Grant.dump() incl. issued_token / token_map against Model.ImpExp.grant_dump"""
+    from idpyoidc.message import Message
+    cases = []
+
+    def qn(o):
+        return type(o).__module__ + "." + type(o).__name__
+
+    def obj(o, extra=None):
+        items = [("__class__", "(VStr %s)" % coq_str(qn(o)))]
+        for k, v in vars(o).items():
+            if extra and k in extra:
+                items.append((k, extra[k]))
+            elif representable(v):
+                items.append((k, cv(v)))
+        return "(VObj %s)" % coq_list(["(%s, %s)" % (coq_str(k), t) for k, t in items], "(pystr * pyval)"), items
+
+    for g in grants:
+        toks = coq_list([obj(t)[0] for t in g.issued_token], "pyval")
+        tm = "(VDict %s)" % coq_list(["(%s, (VStr %s))" % (coq_str(k), coq_str(c.__module__ + "." + c.__name__)) for k, c in g.token_map.items()],
+                                     "(pystr * pyval)")
+        _, items = obj(g, {"issued_token": "(VList %s)" % toks, "token_map": tm})
+        fields = coq_list(["(%s, %s)" % (coq_str(k), t) for k, t in items], "(pystr * pyval)")
+        try:
+            d = g.dump()
+            if not representable(d):
+                ctx.unmodelled += 1
+                continue
+            rt = "(Ok %s)" % cv_items(d)
+        except Exception as e:
+            rt = "(Err %s)" % EXC[type(e).__name__] if type(e).__name__ in EXC else None
+            if rt is None:
+                ctx.unmodelled += 1
+                continue
+        rec = {"grant": qn(g), "tokens": [t.token_class for t in g.issued_token], "used": g.used, "revoked": g.revoked}
+        cases.append(("(%s, %s)" % (fields, rt), rec))
+        ctx.case_seen(rec, bool(g.issued_token))
+    imp = ["Lib.Base", "Lib.PyStr", "Lib.ImpExpTy", "Gen.ImpExpTables", "Model.ImpExp"]
+    ctx.coq_check_cases(imp, "fields * res fields", "(chk_grant_dump impexp_tables)", cases, shard=10, label="grantdump")
+
+
 def harvest_live(P):
     """live Item-family / node objects of a provider after a history (deep copies)"""
     from idpyoidc.server.session.grant import Grant
@@ -807,6 +848,8 @@ def run(ctx):
         rp_history(ctx, rng, rng.randint(8, 16))
 
     # (4) codec
+    from idpyoidc.server.session.grant import Grant
+    grant_cases(ctx, [x for x in live if isinstance(x, Grant)][:24 if q else 300])
     codec_cases(ctx, rng, 400 if q else 6000, live[:60 if q else 800])
 
 
